@@ -178,6 +178,8 @@ REG.classes["TableMethod"].fields.update({"_shifts": List(List(Opt(Int))), "_gap
 _TM_STATE = ["self._current_gap", "*self._processing_queue", "*self._rule_holding_extra_terms"]
 _TM_FUN = ["*self._function._value", "*self._function._preimage_count._list", "self._function._infinity_count",
            "all:List(Opt(Int))"]
+# the two index structures (rules pumping / using a class): rows are created on first access and only ever rewritten in place
+_TM_IDX = ["*self._rules_using_class._list", "*self._rules_pumping_class._list", "all:List(Int)", "all:List(Tup(Int, Int))"]
 contract(F, "TableMethod._correct_gap", props=["C03"], aliases=FAL,
          params={"self": Obj("TableMethod")},
          requires=["self._gap_size >= 1"],
@@ -199,17 +201,91 @@ contract(F, "TableMethod._correct_gap", props=["C03"], aliases=FAL,
              "self._processing_queue[i] == old(self._processing_queue[i])))"],
          modifies=_TM_STATE,
          notes="gap bookkeeping: window position and the requeue of held rules")
-contract(F, "TableMethod._process_queue", props=["C03"], verify=False, aliases=FAL,
-         trusted_reason="the propagation loop of the table method: only its frame is used here; its result (least fixed point) "
-                        "is the subject of the bounded stand-in c03",
-         params={"self": Obj("TableMethod")}, modifies=_TM_STATE + _TM_FUN)
+_NONNEG = "forall(lambda k: implies(0 <= k, is_none(" + _TFV.format(k="k") + ") or val(" + _TFV.format(k="k") + ") >= 0))"
+# no row of the shift table is the value list of the function (both are lists of Optional[int])
+_ROWS_APART = ("forall(lambda r: implies(0 <= r and r < len(self._shifts), not same(self._shifts[r], self._function._value)))")
+_PARENTS_OK = ("forall(lambda r: implies(0 <= r and r < len(self._rules), self._rules[r].parent >= 0 and "
+               "forall(lambda j: implies(0 <= j and j < len(self._rules[r].children), self._rules[r].children[j] >= 0))))")
+# no row of rule indices is the histogram's list (both are lists of int)
+_HIST_APART = ("forall(lambda i: implies(0 <= i and i < len(self._rules_pumping_class._list), "
+               "not same(self._rules_pumping_class._list[i], self._function._preimage_count._list)))")
+_IDX_WF = ["wf(self._rules_using_class)", "wf(self._rules_pumping_class)", _HIST_APART]
+_TBL_INV = ["self._gap_size >= 1", _NONNEG, _ROWS_APART, _PARENTS_OK] + _IDX_WF
+
+
+def tbl_inv(name):
+    """The table invariant stated about the table held in variable `name`."""
+    return [x.replace("self.", name + ".") for x in _TBL_INV]
+
+
+# ---------------------------------------------------------------- the two index structures: DefaultList(list) of index rows
+# DefaultList[List[int]] (rules pumping a class) and DefaultList[List[Tuple[int, int]]] (rules using a class): same real source
+# as the histogram's DefaultList[int], but the default factory allocates a NEW empty list per missing position.  The generic
+# `extend(<factory() for _ in range(n)>)` is outside what the engine allocates in bulk from a stored factory, so __getitem__ and
+# __setitem__ of these two instantiations are summaries (trusted); the int instantiation of the same code is verified above.
+Pair = Tup(Int, Int)
+for _nm, _row in (("DefaultListIdx", List(Int)), ("DefaultListPairs", List(Pair))):
+    klass(F, _nm, fields={"_list": List(_row)}, iter_delegate="_list",
+          # every position has a row of its own
+          invariant=["forall(lambda i, j: implies(0 <= i and i < j and j < len(self._list), not same(self._list[i], self._list[j])))"])
+    contract(F, _nm + ".__init__", source="DefaultList.__init__", props=["C03"], self_invariant=False, lenient=True,
+             params={"self": Obj(_nm), "default_factory": Opaque("Any")},
+             ensures=["len(self._list) == 0", "fresh(self._list)", "wf(self)"], modifies=["*self"])
+    contract(F, _nm + ".__getitem__", source="DefaultList.__getitem__", props=["C03"], verify=False, aliases={"Pair": Pair},
+             trusted_reason="DefaultList(list).__getitem__: the row at `key`; missing positions up to `key` are filled with new, "
+                            "empty, pairwise distinct lists; existing rows keep their identity and content",
+             params={"self": Obj(_nm), "key": Int}, returns=_row, requires=["key >= 0"],
+             ensures=["len(self._list) > key", "len(self._list) >= old(len(self._list))", "same(result, self._list[key])",
+                      "forall(lambda i: implies(0 <= i and i < old(len(self._list)), same(self._list[i], old(self._list[i]))))",
+                      "forall(lambda i: implies(old(len(self._list)) <= i and i < len(self._list), fresh(self._list[i]) and len(self._list[i]) == 0))",
+                      "forall(lambda i, j: implies(old(len(self._list)) <= i and i < j and j < len(self._list), not same(self._list[i], self._list[j])))"],
+             modifies=["*self._list"])
+    contract(F, _nm + ".__setitem__", source="DefaultList.__setitem__", props=["C03"], aliases={"Pair": Pair},
+             params={"self": Obj(_nm), "key": Int, "value": _row},
+             requires=["0 <= key", "key < len(self._list)",
+                       "forall(lambda i: implies(0 <= i and i < len(self._list) and i != key, not same(self._list[i], value)))"],
+             ensures=["len(self._list) == old(len(self._list))", "same(self._list[key], value)",
+                      "forall(lambda i: implies(0 <= i and i < len(self._list) and i != key, same(self._list[i], old(self._list[i]))))"],
+             modifies=["*self._list"])
+REG.classes["TableMethod"].fields.update({"_rules_using_class": Obj("DefaultListPairs"), "_rules_pumping_class": Obj("DefaultListIdx")})
+
+_UL = "self._rules_using_class._list"
+_REGISTERED = ("forall_t(lambda j: implies(0 <= j and j < {hi} and not is_none(" + _TFV.format(k="rule_key.children[j]") + "), "
+               "rule_key.children[j] < len(" + _UL + ") and 0 <= wit[j] and wit[j] < len(" + _UL + "[rule_key.children[j]]) and "
+               + _UL + "[rule_key.children[j]][wit[j]] == (rule_idx, j)))")
+_EARLIER = ("forall_t(lambda j: implies(0 <= j and j < child_idx and not is_none(" + _TFV.format(k="rule_key.children[j]") + "), {body}))")
+_PUMP_LAST = ("rule_key.parent < len(self._rules_pumping_class._list) and len(self._rules_pumping_class._list[rule_key.parent]) >= 1 and "
+              "self._rules_pumping_class._list[rule_key.parent][len(self._rules_pumping_class._list[rule_key.parent]) - 1] == rule_idx")
 contract(F, "TableMethod.add_rule_key", props=["C03", "C11"], lenient=True, aliases=FAL,
          params={"self": Obj("TableMethod"), "rule_key": ForestRuleKey},
          # every child of an inserted key is paired with a shift (otherwise zip() silently drops the child)
-         requires=[_WFKEY.format(k="rule_key"), "self._gap_size >= 1"],
-         ensures=["self._gap_size >= 1", "len(self._rules) == old(len(self._rules)) + 1", "self._rules[len(self._rules) - 1] == rule_key",
+         requires=[_WFKEY.format(k="rule_key")] + _TBL_INV,
+         ensures=_TBL_INV + ["len(self._rules) == old(len(self._rules)) + 1", "self._rules[len(self._rules) - 1] == rule_key",
                   "forall(lambda i: implies(0 <= i and i < old(len(self._rules)), self._rules[i] == old(self._rules[i])))"],
-         modifies=["*self._rules", "*self._shifts", "self._gap_size", "all:List(Int)"] + _TM_STATE + _TM_FUN,
+         # exception freedom of the propagation is NOT proved (it needs the invariants of the two untracked index structures)
+         may_raise=["AssertionError", "IndexError", "ValueError"],
+         # registration: once a rule with a finite parent is stored, every child position whose class is still finite is
+         # recorded among the rules using that class (so that a later increase of the child reaches this rule's shift),
+         # the rule is recorded among those pumping its parent, and it is queued
+         ghost={"wit": Map(Int, Int)},        # position of the entry recorded for child j in the row of its class
+         ghost_stmts={"after:expr#5": [
+                          # the append keeps the earlier entries: same rows, never shorter, same content at the recorded places
+                          "assert forall_t(lambda j: implies(0 <= j and j < len(rule_key.children), rule_key.children[j] >= 0))",
+                          "assert " + _EARLIER.format(body="rule_key.children[j] < at('iter0', len(" + _UL + "))"),
+                          "assert " + _EARLIER.format(body="same(" + _UL + "[rule_key.children[j]], at('iter0', " + _UL + "[rule_key.children[j]]))"),
+                          "assert " + _EARLIER.format(body="len(" + _UL + "[rule_key.children[j]]) >= at('iter0', len(" + _UL + "[rule_key.children[j]]))"),
+                          "assert " + _EARLIER.format(body=_UL + "[rule_key.children[j]][wit[j]] == at('iter0', " + _UL + "[rule_key.children[j]][wit[j]])"),
+                          "assert " + _REGISTERED.format(hi="child_idx"),
+                                       "wit = mset(wit, child_idx, len(self._rules_using_class._list[child]) - 1)"],
+                      "after:expr#6": ["assert " + _REGISTERED.format(hi="len(rule_key.children)"),
+                                       "assert self._processing_queue[len(self._processing_queue) - 1] == rule_idx",
+                                       "assert rule_idx == len(self._rules) - 1", "assert " + _PUMP_LAST]},
+         # (only what the loop can change is restated: function lists and the rows of rules using a class; the rest of the
+         # table invariant is about locations outside the loop's frame)
+         loops={0: dict(invariant=[_NONNEG, "wf(self._rules_using_class)", _REGISTERED.format(hi="_i0")],
+                        modifies=["*self._function._value", "*self._function._preimage_count._list", "*self._rules_using_class._list",
+                                  "all:List(Tup(Int, Int))"])},
+         modifies=["*self._rules", "*self._shifts", "self._gap_size"] + _TM_STATE + _TM_FUN + _TM_IDX,
          notes="the key is stored as given; its initial shifts are computed from well-formed data (call-site obligations of "
                "_compute_shift)")
 
@@ -272,25 +348,38 @@ contract(F, "RuleDBForest.get_specification_rules", props=["C11", "C02"], lenien
          notes="extraction is rooted at the start label; the self check runs before any rule is handed out")
 
 # ---------------------------------------------------------------- C11: _is_productive -- a fresh table fed with exactly the given keys
-contract(F, "TableMethod.__init__", props=["C11", "C03"], verify=False, aliases=FAL,
-         trusted_reason="constructor summary: empty table, gap size 1, empty function",
+contract(F, "DefaultListInt.__init__", source="DefaultList.__init__", props=["C03"], self_invariant=False, lenient=True,
+         params={"self": Obj("DefaultListInt"), "default_factory": Opaque("Any")},
+         ensures=["len(self._list) == 0", "fresh(self._list)"], modifies=["*self"],
+         notes="a new default list is empty")
+contract(F, "Function.__init__", props=["C03"], self_invariant=False, lenient=True,
+         params={"self": Obj("Function")},
+         ensures=["len(self._value) == 0", "fresh(self._value)", "fresh(self._preimage_count)", "fresh(self._preimage_count._list)",
+                  "len(self._preimage_count._list) == 0", "self._infinity_count == 0"],
+         modifies=["*self"], notes="the zero function: no stored value, empty histogram")
+contract(F, "TableMethod.__init__", props=["C11", "C03"], aliases=FAL, lenient=True,
          params={"self": Obj("TableMethod")},
-         ensures=["self._gap_size == 1", "len(self._rules) == 0", "fresh(self._function)", "fresh(self._rules)",
+         ensures=_TBL_INV + ["self._gap_size == 1", "len(self._rules) == 0", "len(self._shifts) == 0", "fresh(self._function)", "fresh(self._rules)",
                   # every container of the new table is a new object
                   "fresh(self._shifts)", "fresh(self._processing_queue)", "fresh(self._rule_holding_extra_terms)",
                   "fresh(self._function._value)", "fresh(self._function._preimage_count)",
-                  "fresh(self._function._preimage_count._list)"],
-         modifies=["*self"], self_invariant=False)
+                  "fresh(self._function._preimage_count._list)",
+                  "len(self._processing_queue) == 0", "len(self._rule_holding_extra_terms) == 0", "self._current_gap == (1, 1)",
+                  "len(self._function._value) == 0"],
+         modifies=["*self"], self_invariant=False,
+         notes="empty table, gap size 1 at (1, 1), zero function: the table invariant holds initially")
 REG.classes["ForestRuleExtractor"].fields.update({"root_label": Int})
 _ISP_OTHER = ["all:Obj('TableMethod')", "all:List(List(Opt(Int)))", "all:List(Int)", "all:Deque(Int)", "all:Set(Int)",
-                   "all:List(Opt(Int))", "all:Obj('Function')", "all:Obj('DefaultListInt')"]
+                   "all:List(Opt(Int))", "all:Obj('Function')", "all:Obj('DefaultListInt')", "all:List(List(Int))",
+                   "all:List(List(Tup(Int, Int)))", "all:List(Tup(Int, Int))"]
 contract(F, "ForestRuleExtractor._is_productive", props=["C11"], lenient=True, aliases=FAL,
          params={"self": Obj("ForestRuleExtractor"), "rule_keys": Seq(ForestRuleKey)}, returns=Bool,
          requires=["self.root_label >= 0",
                    "forall(lambda i: implies(0 <= i and i < len(rule_keys), " + _WFKEY.format(k="rule_keys[i]") + "))"],
          locals={"ruledb": Obj("TableMethod")},
+         may_raise=["AssertionError", "IndexError", "ValueError"],     # from the propagation (exception freedom not proved)
          # the verdict is the pumping status of the root in a table that received every given key (and only those), in order
-         loops={0: dict(invariant=["ruledb._gap_size >= 1", "fresh(ruledb)", "len(ruledb._rules) == _i0",
+         loops={0: dict(invariant=tbl_inv("ruledb") + ["fresh(ruledb)", "len(ruledb._rules) == _i0",
                                    "forall(lambda j: implies(0 <= j and j < _i0, ruledb._rules[j] == rule_keys[j]))"],
                         modifies=["*ruledb._rules"] + _ISP_OTHER)},
          call_requires={"TableMethod.is_pumping": ["label == caller_self.root_label", "fresh(self)",
@@ -310,7 +399,8 @@ REG.classes["ForestRuleExtractor"].fields.update({"needed_rules": List(ForestRul
                                                   "rule_by_bucket": Dict(Bucket, List(ForestRuleKey))})
 _MK_MODS = ["*self.needed_rules", "all:List(ForestRuleKey)", "all:List(List(ForestRuleKey))", "all:Obj('TableMethod')",
             "all:List(List(Opt(Int)))", "all:List(Int)", "all:Deque(Int)", "all:Set(Int)", "all:List(Opt(Int))",
-            "all:Obj('Function')", "all:Obj('DefaultListInt')"]
+            "all:Obj('Function')", "all:Obj('DefaultListInt')", "all:List(List(Int))", "all:List(List(Tup(Int, Int)))",
+            "all:List(Tup(Int, Int))"]
 _NEW_NEC = ("forall(lambda i: implies({lo} <= i and i < len(self.needed_rules), nec[self.needed_rules[i]]))")
 _OLD_SAME = ("len(self.needed_rules) >= {lo} and forall(lambda i: implies(0 <= i and i < {lo}, "
              "self.needed_rules[i] == {old}))")
@@ -327,7 +417,7 @@ contract(F, "ForestRuleExtractor._minimize_key", props=["C11"], lenient=True, al
                    "forall(lambda k=RuleBucket: implies(k in self.rule_by_bucket, not same(self.rule_by_bucket[k], self.needed_rules)))",
                    "forall(lambda k=RuleBucket, l=RuleBucket: implies(k in self.rule_by_bucket and l in self.rule_by_bucket and k != l, "
                    "not same(self.rule_by_bucket[k], self.rule_by_bucket[l])))"],
-         may_raise=["RuntimeError", "AssertionError", "IndexError"], asserts="raise",
+         may_raise=["RuntimeError", "AssertionError", "IndexError", "ValueError"], asserts="raise",
          ensures=["len(self.rule_by_bucket[key]) == 0",
                   # the other buckets are not touched
                   "forall(lambda k=RuleBucket: (k in self.rule_by_bucket) == old(k in self.rule_by_bucket))",
@@ -354,18 +444,87 @@ contract(F, "ForestRuleExtractor._minimize_key", props=["C11"], lenient=True, al
 # ---------------------------------------------------------------- C03: _increase_value keeps the gap up to date
 # whenever a value was increased, the recorded gap starts where the histogram says it starts (the window is re-derived
 # every time its start moved, in either direction)
+_TFV_AT = lambda lbl: ("forall(lambda k: implies(0 <= k, " + _TFV.format(k="k") + " == at('" + lbl + "', " + _TFV.format(k="k") + ")))")
+_OTHERS_SAME = ("forall(lambda k: implies(0 <= k and k != comb_class, " + _TFV.format(k="k") + " == old(" + _TFV.format(k="k") + ")))")
 contract(F, "TableMethod._increase_value", props=["C03"], lenient=True, aliases=FAL,
          params={"self": Obj("TableMethod"), "comb_class": Int, "rule_idx": Int},
-         requires=["comb_class >= 0", "self._gap_size >= 1",
-                   "implies(not is_none(" + _TFV.format(k="comb_class") + "), val(" + _TFV.format(k="comb_class") + ") >= 0)"],
+         requires=["comb_class >= 0", "self._gap_size >= 1", _NONNEG, _ROWS_APART] + _IDX_WF,
          may_raise=["AssertionError", "IndexError", "ValueError"], asserts="raise",
-         ensures=["implies(called_after('Function.increase_value', 'TableMethod._increase_value'), "
-                  "self._current_gap[0] == last_result('Function.preimage_gap'))"],
-         loops={0: dict(invariant=[], modifies=["all:List(Opt(Int))", "*self._processing_queue"]),
-                1: dict(invariant=[], modifies=["all:List(Opt(Int))"]),
-                2: dict(invariant=[], modifies=["all:List(Opt(Int))", "*self._processing_queue"])},
-         modifies=_TM_STATE + _TM_FUN,
-         notes="the shift-table updates of this function are not stated (index structures are untracked); only the gap")
+         ensures=_IDX_WF + ["implies(called_after('Function.increase_value', 'TableMethod._increase_value'), "
+                  "self._current_gap[0] == last_result('Function.preimage_gap'))",
+                  # the value of the class goes up by at most one; an infinite value and every other class are untouched
+                  _OTHERS_SAME, _NONNEG,
+                  "implies(is_none(old(" + _TFV.format(k="comb_class") + ")), is_none(" + _TFV.format(k="comb_class") + "))",
+                  "implies(not is_none(old(" + _TFV.format(k="comb_class") + ")), not is_none(" + _TFV.format(k="comb_class") + ") and "
+                  "(val(" + _TFV.format(k="comb_class") + ") == val(old(" + _TFV.format(k="comb_class") + ")) or "
+                  "val(" + _TFV.format(k="comb_class") + ") == val(old(" + _TFV.format(k="comb_class") + ")) + 1))",
+                  # a value above the gap is frozen: the justifying rule is held back instead
+                  "implies(not is_none(old(" + _TFV.format(k="comb_class") + ")) and "
+                  "val(old(" + _TFV.format(k="comb_class") + ")) > old(self._current_gap[1]), "
+                  "val(" + _TFV.format(k="comb_class") + ") == val(old(" + _TFV.format(k="comb_class") + ")) and rule_idx in self._rule_holding_extra_terms)",
+                  "implies(not is_none(old(" + _TFV.format(k="comb_class") + ")) and "
+                  "val(old(" + _TFV.format(k="comb_class") + ")) <= old(self._current_gap[1]), "
+                  "val(" + _TFV.format(k="comb_class") + ") == val(old(" + _TFV.format(k="comb_class") + ")) + 1)"],
+         loops={0: dict(invariant=[_TFV_AT("loop0")] + _IDX_WF, modifies=["all:List(Opt(Int))", "*self._processing_queue"]),
+                1: dict(invariant=[_TFV_AT("loop1")] + _IDX_WF, modifies=["all:List(Opt(Int))"]),
+                2: dict(invariant=[_TFV_AT("loop2")] + _IDX_WF, modifies=["all:List(Opt(Int))", "*self._processing_queue"])},
+         modifies=_TM_STATE + _TM_FUN + _TM_IDX,
+         notes="value bookkeeping: +1 below or at the gap, frozen (rule held back) above it; the gap start is re-derived. The "
+               "shift-table updates themselves are not stated (the two index structures are untracked)")
+
+_CCV = _TFV.format(k="comb_class")
+contract(F, "TableMethod._set_infinite", props=["C03"], lenient=True, aliases=FAL,
+         params={"self": Obj("TableMethod"), "comb_class": Int},
+         requires=["comb_class >= 0", _NONNEG, _ROWS_APART, _PARENTS_OK] + _IDX_WF,
+         # a class is declared infinite only from above the gap and only when nothing is left to process
+         raises=[("AssertionError", "not is_none(" + _CCV + ") and (val(" + _CCV + ") <= self._current_gap[1] or len(self._processing_queue) > 0)")],
+         may_raise=["IndexError"], asserts="raise",
+         ensures=_IDX_WF + ["is_none(" + _CCV + ")", _OTHERS_SAME, _NONNEG,
+                  "self._function._infinity_count == old(self._function._infinity_count) + ite(is_none(old(" + _CCV + ")), 0, 1)",
+                  "self._current_gap == old(self._current_gap)",
+                  "forall(lambda r: (r in self._rule_holding_extra_terms) == old(r in self._rule_holding_extra_terms))"],
+         loops={0: dict(invariant=[_TFV_AT("loop0"), _PARENTS_OK] + _IDX_WF, modifies=["*self._rules_using_class._list", "all:List(Tup(Int, Int))"]),
+                1: dict(invariant=[_TFV_AT("loop1"), _PARENTS_OK] + _IDX_WF, modifies=["*self._rules_using_class._list", "all:List(Tup(Int, Int))"]),
+                2: dict(invariant=[_TFV_AT("loop2")] + _IDX_WF, modifies=["all:List(Opt(Int))", "*self._processing_queue"])},
+         modifies=["*self._processing_queue"] + _TM_FUN + _TM_IDX,
+         notes="the class becomes infinite, every other value is untouched; refused (assertion) below the gap or with work queued")
+
+# ---------------------------------------------------------------- C03: the propagation loop
+# Firing discipline (what makes every single step of the table method sound): a value is increased only on behalf of a rule
+# all of whose shifts are positive or infinite, and for that rule's own parent; a class is declared infinite only for the parent
+# of a rule that was held back, and only once the processing queue has run empty.
+# the queue holds whatever the (untracked) index structures handed over: a negative entry is read from the end, as Python does
+_ROW = "caller_self._shifts[ite(rule_idx < 0, rule_idx + len(caller_self._shifts), rule_idx)]"
+_KEYOF = "caller_self._rules[ite(rule_idx < 0, rule_idx + len(caller_self._rules), rule_idx)]"
+_ALL_POS = ("forall(lambda i: implies(0 <= i and i < len(" + _ROW + "), is_none(" + _ROW + "[i]) or val(" + _ROW + "[i]) > 0))")
+_PQ_INV = _TBL_INV
+contract(F, "TableMethod._process_queue", props=["C03"], lenient=True, aliases=FAL,
+         params={"self": Obj("TableMethod")},
+         requires=_PQ_INV,
+         may_raise=["AssertionError", "IndexError", "ValueError"],
+         call_requires={
+             "TableMethod._increase_value": ["comb_class == " + _KEYOF + ".parent", _ALL_POS],
+             "TableMethod._set_infinite": ["len(caller_self._processing_queue) == 0",
+                                           "exists(lambda r: 0 <= r and r < len(caller_self._rules) and "
+                                           "comb_class == caller_self._rules[r].parent)"]},
+         ensures=_IDX_WF + [_NONNEG, "len(self._processing_queue) == 0", "len(self._rule_holding_extra_terms) == 0",
+                  # values only grow: a finite value never decreases and an infinite one stays infinite
+                  "forall(lambda k: implies(0 <= k and is_none(old(" + _TFV.format(k="k") + ")), is_none(" + _TFV.format(k="k") + ")))",
+                  "forall(lambda k: implies(0 <= k and not is_none(" + _TFV.format(k="k") + "), "
+                  "val(" + _TFV.format(k="k") + ") >= val(old(" + _TFV.format(k="k") + "))))"],
+         loops={0: dict(invariant=_PQ_INV + [
+                    "forall(lambda k: implies(0 <= k and is_none(at('loop0', " + _TFV.format(k="k") + ")), is_none(" + _TFV.format(k="k") + ")))",
+                    "forall(lambda k: implies(0 <= k and not is_none(" + _TFV.format(k="k") + "), "
+                    "val(" + _TFV.format(k="k") + ") >= val(at('loop0', " + _TFV.format(k="k") + "))))"],
+                        modifies=_TM_STATE + _TM_FUN + _TM_IDX),
+                1: dict(invariant=_PQ_INV + [
+                    "forall(lambda k: implies(0 <= k and is_none(at('loop1', " + _TFV.format(k="k") + ")), is_none(" + _TFV.format(k="k") + ")))",
+                    "forall(lambda k: implies(0 <= k and not is_none(" + _TFV.format(k="k") + "), "
+                    "val(" + _TFV.format(k="k") + ") >= val(at('loop1', " + _TFV.format(k="k") + "))))"],
+                        modifies=_TM_STATE + _TM_FUN + _TM_IDX)},
+         modifies=_TM_STATE + _TM_FUN + _TM_IDX,
+         notes="a rule fires only when every shift is positive or infinite; infinity only with an empty queue; values only grow; "
+               "on return nothing is queued or held back.  That the result is the least fixed point is the bounded stand-in c03")
 
 # ---------------------------------------------------------------- C11: _minimize -- REVERSE rules are minimised first
 # (so a reverse rule survives only if the specification needs it whatever forward rules are still available)
@@ -377,7 +536,7 @@ contract(F, "ForestRuleExtractor._minimize", props=["C11"], lenient=True, aliase
              # first REVERSE, then NORMAL, EQUIV, VERIFICATION -- nothing is minimised before the reverse rules
              "implies(_i0 == 0, key == bucket('REVERSE'))", "implies(_i0 == 1, key == bucket('NORMAL'))",
              "implies(_i0 == 2, key == bucket('EQUIV'))", "implies(_i0 == 3, key == bucket('VERIFICATION'))", "_i0 <= 3"]},
-         may_raise=["RuntimeError", "AssertionError", "IndexError"],
+         may_raise=["RuntimeError", "AssertionError", "IndexError", "ValueError"],
          loops={0: dict(invariant=[], modifies=_MK_MODS)},
          modifies=_MK_MODS,
          notes="order of minimisation")
